@@ -10,6 +10,37 @@ def main():
     case = json.load(open(sys.argv[1]))
     from simcheck.pipeline import TimeBudgetProbe, run_pipeline
 
+    if case.get("reverse_listing"):
+        # environment fault: the file system enumerates directories in the opposite order
+        real_listdir, real_scandir = os.listdir, os.scandir
+
+        def listdir(path="."):
+            return sorted(real_listdir(path), reverse=True)
+
+        class _Scan:
+            def __init__(self, path="."):
+                with real_scandir(path) as it:
+                    self._entries = sorted(it, key=lambda e: e.name, reverse=True)
+                self._i = iter(self._entries)
+
+            def __iter__(self):
+                return self
+
+            def __next__(self):
+                return next(self._i)
+
+            def __enter__(self):
+                return self
+
+            def __exit__(self, *a):
+                return False
+
+            def close(self):
+                pass
+
+        os.listdir = listdir
+        os.scandir = _Scan
+
     out = os.dup(1)
     run, res = run_pipeline(case, [TimeBudgetProbe()])
     payload = {k: res[k] for k in ("digest", "rc", "iterations", "executions", "draws", "draw_digest",
